@@ -169,6 +169,12 @@ OPS = [
   ("density_same_key_twice", "eam adp", dup_entry("EAM-Density", SAME)),
   ("fs_density_same_key_twice", "fs", dup_entry("EAM-Density", SAME)),
   ("fs_density_whitespace_variant", "fs", dup_entry("EAM-Density", ws)),
+  # labels that are words of the expression language (a formula cannot call them, but an entry can use them): the
+  # duplicate checks are about labels, not about what a probe expression can evaluate
+  ("custom_form_reserved_word_label_twice", "*", lambda items, info, rng: (lambda w: (bm.sec(items, "Potential-Form")[1].extend([["%s(r, A)" % w, "1.0 + 0*r + 0*A"], ["%s(r, B)" % w, "777.0 + 0*r + 0*B"]]),
+      (items, "%s(r, A)" % w, "%s(r, B)" % w))[1])(rng.choice(["while", "for", "if", "and", "return", "switch", "not"]))),
+  ("table_form_named_like_reserved_word_custom_form", "*", lambda items, info, rng: (lambda w: (bm.sec(items, "Potential-Form")[1].append(["%s(r, A)" % w, "1.0 + 0*r + 0*A"]),
+      items.append(["Table-Form:%s" % w, [["x", "0 1 2 3 4 10"], ["y", "777 777 777 777 777 777"]]]), (items, "%s(r, A)" % w, "Table-Form:%s" % w))[2])(rng.choice(["while", "for", "switch", "return"]))),
   ("custom_form_same_signature_twice", "*", second_form(SAME)),
   ("custom_form_whitespace_variant", "*", second_form(lambda k, rng: k.replace(", ", ",") if ", " in k else k.replace(",", " , "))),
   ("custom_form_same_label_other_signature", "*", second_form(lambda k, rng: "cf(r, B)")),
